@@ -23,7 +23,7 @@ NSHARDS = 64
 LEAVES = [lit('a'), lit('b', 'd'), nt('X'), cmd('c')]
 REG = 'abcxyzABZ019' + gast.REGULAR_PUNCT
 DESC_CHARS = 'abc XYZ09!#$%&\'()*+,-./:;<=>?@[]^_`{|}~\\"\té→日'
-NAME_CHARS = 'ABCxyz_-09 .,:;!?/=()[]{}|"\'$é'
+NAME_CHARS = 'ABCxyz_-09 .,:;!?/=()[]{}|"\'$é\n\t'
 
 
 def enum_trees(n):
